@@ -98,8 +98,8 @@ def build_op(node):
 
 def variants():
     """(node, modes)"""
-    both = ('plain', 'mux', 'group', 'roll', 'split')
-    mux = ('mux', 'group', 'roll', 'split')
+    both = ('plain', 'mux', 'group', 'roll', 'split', 'sections')
+    mux = ('mux', 'group', 'roll', 'split', 'sections')
     yield ['first'], both
     yield ['last'], both
     for n in (0, 1, 2, 3, 7):
@@ -142,7 +142,7 @@ class C10(Check):
                'rxsci/operators/distinct_until_changed.py', 'rxsci/data/lag.py', 'rxsci/data/pad.py', 'rxsci/operators/start_with.py',
                'rxsci/data/batch.py', 'rxsci/data/sort.py']
     REQUIRED_TAGS = ['first', 'last', 'take', 'distinct', 'duc', 'lag', 'pad_start', 'pad_end', 'start_with', 'batch', 'sort',
-                     'plain', 'mux', 'group', 'roll', 'split', 'scale', 'numpy-items', 'negative-values', 'empty', 'has-None', 'len-multiple-of-n', 'numpy-typed-parameters'] + PRELUDE_TAGS
+                     'plain', 'mux', 'group', 'roll', 'split', 'scale', 'numpy-items', 'negative-values', 'empty', 'has-None', 'len-multiple-of-n', 'numpy-typed-parameters', 'two-store-sections'] + PRELUDE_TAGS
     REQUIRED_OBSERVED = ['sequences_compared']
 
     def generate(self, rng, tier, shard, nshards):
@@ -166,13 +166,15 @@ class C10(Check):
                         idx += 1
                         if idx % nshards != shard:
                             continue
-                        if mode in ('group', 'roll', 'split') and (idx // nshards) % 3:
+                        if mode in ('group', 'roll', 'split', 'sections') and (idx // nshards) % 3:
                             continue            # keyed modes on a third of the box (they run several sequences at once)
+                        if tier == 'quick' and ln == m and (idx // nshards) % 2:
+                            continue            # (quick: half of the longest sequences)
                         yield {'op': node, 'mode': mode, 'seq': list(seq), 'gseed': idx}
         self.box_done = 1
 
     def _random(self, rng, tier):
-        k = 8000 if tier == 'quick' else 10 ** 7
+        k = 6000 if tier == 'quick' else 10 ** 7
         big = [(['take', 300], ('plain', 'mux', 'group')), (['lag', 300], ('mux', 'group')), (['batch', 257], ('plain', 'mux', 'group', 'roll')),
                (['batch', 1000], ('plain', 'mux')), (['pad_start', 300, 9], ('mux',)), (['pad_end', 260, None], ('mux',)),
                (['distinct', None], ('mux', 'group')), (['take', 257], ('mux', 'split')), (['sort', 'k', True], ('plain',))]
@@ -229,6 +231,20 @@ class C10(Check):
             # (key, tag) pairs: equal keys keep their source order iff the sort is stable
             seq = [((x or 0), j) for j, x in enumerate(seq)]
 
+        if mode == 'sections':
+            # two consecutive store sections inside ONE multiplexed stream (two groups of states kept in different stores): the
+            # operator under test sits in the second one, behind a stateful pass-through in the first
+            out.tags.append('two-store-sections')
+            op = self._op(node, case)
+            first = rs.state.with_memory_store([rs.ops.scan(lambda a, i: i, None)])
+            s = progs.run_obs(lambda src: src.pipe(rs.ops.multiplex([first, rs.state.with_memory_store([op])])), seq, prelude=prelude)
+            if s.err is not None or not s.done:
+                return out.fail('operator-errored', op=node, mode=mode, seq=seq, error=repr(s.err), done=s.done)
+            want = list_def(node, seq)
+            out.observed['sequences_compared'] += 1
+            if norm(s.out) != norm(want):
+                out.fail('differs-from-list-definition', op=node, mode=mode, seq=seq, want=want, got=s.out)
+            return out
         if mode in ('plain', 'mux'):
             if mode == 'plain' and name in ('first', 'last') and not seq:
                 out.discarded = 'first/last on an empty plain observable raise by design'
